@@ -4,8 +4,8 @@ import Hv.Generated.FactsC17
 namespace Hv.C17
 
 /-- The kernel-checked decision for the facts extracted from /repo on this run. -/
-theorem verdict : (classify Generated.factsC17).Sound (Holds (cfgOf Generated.factsC17) Generated.factsC17.handlers (ceaseOf Generated.factsC17) (closeOf Generated.factsC17) (muOf Generated.factsC17))
-    (HoldsPartial (cfgOf Generated.factsC17) Generated.factsC17.handlers) :=
+theorem verdict : (classify Generated.factsC17).Sound (Holds (cfgOf Generated.factsC17) Generated.factsC17.handlers (ceaseOf Generated.factsC17) (closeOf Generated.factsC17) (muOf Generated.factsC17) (retOf Generated.factsC17))
+    (HoldsPartial (cfgOf Generated.factsC17) (pairedOf Generated.factsC17)) :=
   classify_sound _
 
 #eval IO.println (verdictLine "C17" (classify Generated.factsC17))
@@ -22,6 +22,8 @@ theorem verdict : (classify Generated.factsC17).Sound (Holds (cfgOf Generated.fa
 #print axioms refutes_looseCheck
 #print axioms holds_partial
 #print axioms refutes_lockBeforeDrain
+#print axioms refutes_leak
+#print axioms refutes_doubleCease
 #print axioms VigilMu.no_mu_deadlock
 #print axioms VigilMu.drain_progress
 #print axioms VigilMu.stuck_forever
